@@ -152,6 +152,9 @@ impl<'a> Gen<'a> {
         let pieces = [
             "a", "b", " ", "xyz", "\\\\", "\\\"", "\\n", "\\t", "\\u{1F600}", "é", "中", "\t", "\r", "'", "//", "///",
             ";", "{", "\u{2028}", "\\x",
+            // a backslash directly followed by a multi-byte character (an invalid escape whose span must
+            // end on a character boundary)
+            "\\é", "\\中", "\\\u{1F600}", "\\ß",
         ];
         let mut s = String::from("\"");
         for _ in 0..self.rng.below(6) {
